@@ -6,3 +6,4 @@ import CC.Thm.C11
 #print axioms CC.Thm.C11.no_exhaustion_below_2_64
 #print axioms CC.Thm.C11.no_reuse
 #print axioms CC.Thm.C11.nonce_words_fixed
+#print axioms CC.Thm.C11.source_glue_match
